@@ -411,6 +411,7 @@ func spellClass(lit string) string {
 // ---------- C05: absent keys ----------
 
 func runC05(r *Run) {
+	c05EscapyKeys(r)
 	r.Rule = "documents built so that the kind of absence is known by construction: leaf absent under a map reached through maps/structs/slices/pointers/interfaces (>= 2 parts), absent struct field, absent top-level key, absent intermediate key, index out of range, step into a scalar, alias-bound paths inside quantifiers; x 8 operators + any/all; x {no unknown value, unknown value of each scalar kind, nil, a list, a map}; predicate on the implementation: the documented table / error / exact substitution of the unknown value (compared with the same operator applied to a document holding that value); also compared with the model on the error-focused generic stream; distinct = (absence kind, operator, unknown kind)"
 	type doc struct {
 		name string
@@ -624,6 +625,8 @@ func runC06(r *Run) {
 		{"map-ints", map[string]interface{}{"m": map[string]int{"a": 1, "b": 2, "c": 1}}, "m", []string{"a", "b", "c"}, true},
 		{"map-mixed", map[string]interface{}{"m": map[string]interface{}{"a": map[string]interface{}{"A": 1}, "b": 5, "c": map[string]interface{}{"A": 2}}}, "m", []string{"a", "b", "c"}, true},
 		{"map-structs", S2{MS: map[string]S1{"k1": {A: 1}, "k2": {A: 2}}}, "MS", []string{"k1", "k2"}, true},
+		{"map-mixed-case", map[string]interface{}{"m": map[string]interface{}{"Zone": 5, "app": map[string]interface{}{"A": 1}, "Beta": map[string]interface{}{"A": 2}}}, "m", []string{"Beta", "Zone", "app"}, true},
+		{"map-case-twins", map[string]interface{}{"m": map[string]interface{}{"a": map[string]interface{}{"A": 1}, "A": 5, "b": 5, "B": map[string]interface{}{"A": 1}}}, "m", []string{"A", "B", "a", "b"}, true},
 		{"map-empty", map[string]interface{}{"m": map[string]int{}}, "m", []string{}, true},
 		{"map-intkeys", S3{MI: map[int]string{1: "a"}}, "MI", nil, true},
 		{"map-namedkeys", S3{MNS: map[NStr]int{"a": 1}}, "MNS", nil, true},
@@ -950,6 +953,7 @@ func c07Colliding(r *Run) {
 }
 
 func runC07(r *Run) {
+	c07DotSegments(r)
 	c07BoundVariables(r)
 	c07Colliding(r)
 	c07WhitespaceTwins(r)
@@ -971,7 +975,8 @@ func runC07(r *Run) {
 				"liquid", "costarring", "declinate", "macallums", "altarage", "zinke", "plumless", "buckeroo", "Aa", "BB", "007", "010", "m²", "Ⅷ", "CO₂", "½", "二〇二四", "K", "İ", "struct field", "not found", "key",
 				"OR", "or", "IN", "in", "AS", "as", "ALL", "all", "ANY", "any", "NOT", "not", "IS", "is", "EMPTY", "empty", "AND", "and", "MATCHES", "matches", "CONTAINS", "contains", "Or", "nOt",
 				"18446744073709551557", "9223372036854775808", "99999999999999999999999", "4294967296", "00000000000000000000001",
-				"unit\u00a0price", "a\u2003b", "x\u200by", "\ufeffk", "a\u3000b", "l\u2028s", "n\u0085l"}
+				"unit\u00a0price", "a\u2003b", "x\u200by", "\ufeffk", "a\u3000b", "l\u2028s", "n\u0085l",
+				".", "..", "...", ".", "..", "a..b", ".a", "a."}
 			leaf := pick(rng, []interface{}{1, "a", []interface{}{1, "a"}, map[string]interface{}{"z": 1}, nil, ""})
 			k1, k2, k3 := pick(rng, keys), pick(rng, keys), pick(rng, keys)
 			// the first part is an identifier that begins like a keyword about one time in two
@@ -1141,6 +1146,7 @@ func genS5(hiddenSeed int) S5 {
 
 func runC08(r *Run) {
 	c08OddTagNames(r)
+	c08HiddenRows(r)
 	r.Rule = "pairs of data equal on visible fields and different in the contents of `-`-tagged and unexported fields (strings, slices, maps, nested structs; nested in structs, pointers, slices and maps), generated from one visible seed and two hidden seeds; expressions from the generic generator against the first datum plus a family naming hidden fields by Go name, tag name, through containers and quantifiers, under the default and the alternate tag name; predicate on the implementation: identical Evaluate outcomes and identical Filter selections for the pair; a selector naming a hidden field never resolves to its content; a renamed field is reachable only under its tag name; both evaluations also compared with the model; distinct = (expression shape, tag, outcome)"
 	n := 1200
 	if r.Tier == "thorough" {
